@@ -4,6 +4,7 @@ import (
 	"bytes"
 	"encoding/hex"
 	"fmt"
+	"sort"
 	"strconv"
 	"strings"
 
@@ -26,6 +27,35 @@ func nearMissKeys(g *Gen, tb *Table) []*Val {
 		for i := 0; i < 6; i++ {
 			cands = append(cands, uint64(g.r.Uint32()))
 		}
+		// keys are structured (category digits, business digits, kind digits): recombine the decimal digit groups of pairs
+		// of registered keys - a table built by nested loops over such groups registers a combination nobody asked for
+		var regList []string
+		for n := range reg {
+			regList = append(regList, strconv.FormatUint(n, 10))
+		}
+		sort.Strings(regList)
+		seen := map[uint64]bool{}
+		var cross []uint64
+		for _, a := range regList {
+			for _, b := range regList {
+				if len(a) != len(b) || a == b {
+					continue
+				}
+				for i := 1; i < len(a); i++ {
+					for j := i; j <= len(a); j++ {
+						if n, err := strconv.ParseUint(a[:i]+b[i:j]+a[j:], 10, 64); err == nil && !reg[n] && !seen[n] {
+							seen[n] = true
+							cross = append(cross, n)
+						}
+					}
+				}
+			}
+		}
+		g.r.Shuffle(len(cross), func(i, j int) { cross[i], cross[j] = cross[j], cross[i] })
+		if len(cross) > 400 {
+			cross = cross[:400]
+		}
+		cands = append(cands, cross...)
 		for _, c := range cands {
 			if !reg[c] {
 				ks = append(ks, &Val{K: 'n', N: c})
@@ -673,5 +703,90 @@ func init() {
 			}
 		}
 		return map[string]any{"exhaustive_len_le_2": true}
+	}
+}
+
+// crossKeys: every recombination of the digit / character groups of two registered keys that is not itself registered
+// (numeric keys by their decimal digits). Tables built by nested loops over such groups can register combinations
+// nobody asked for; the near-miss sample alone rarely hits them.
+func crossKeys(tb *Table) []*Val {
+	var regList []string
+	reg := map[string]bool{}
+	for _, e := range tb.Entries {
+		k := e.Key
+		if tb.KeyKind != "num" {
+			b, _ := hex.DecodeString(e.Key)
+			k = string(b)
+		}
+		if !reg[k] {
+			reg[k] = true
+			regList = append(regList, k)
+		}
+	}
+	sort.Strings(regList)
+	seen := map[string]bool{}
+	var out []*Val
+	for _, a := range regList {
+		for _, b := range regList {
+			if len(a) != len(b) || a == b {
+				continue
+			}
+			for i := 0; i < len(a); i++ {
+				for j := i + 1; j <= len(a); j++ {
+					c := a[:i] + b[i:j] + a[j:]
+					if reg[c] || seen[c] {
+						continue
+					}
+					seen[c] = true
+					if tb.KeyKind == "num" {
+						if n, err := strconv.ParseUint(c, 10, 64); err == nil {
+							out = append(out, &Val{K: 'n', N: n})
+						}
+					} else {
+						out = append(out, &Val{K: 's', S: []byte(c)})
+					}
+				}
+			}
+		}
+	}
+	return out
+}
+
+// C12 (continued): the look-up functions themselves, on every recombined key: an unregistered key must be an error
+func init() {
+	prev := suites["C12"]
+	suites["C12"] = func(o *Out, g *Gen, thorough bool) map[string]any {
+		res := prev(o, g, thorough)
+		n := 0
+		for _, tb := range schema.Tables {
+			fn := lookupFns[tb.Pkg+"."+tb.Lookup]
+			if fn == nil {
+				continue
+			}
+			for _, kv := range crossKeys(tb) {
+				var key any = kv.N
+				desc := fmt.Sprintf("lookup %d n %d", tb.ID, kv.N)
+				if kv.K == 's' {
+					key = string(kv.S)
+					desc = fmt.Sprintf("lookup %d s %s", tb.ID, hexOf(kv.S))
+				}
+				var m codec.BinaryCodec
+				begin(desc)
+				c, _ := guard(func() error { var err error; m, err = fn(key); return err })
+				n++
+				if c != "err" {
+					got := "nil"
+					if m != nil {
+						got = fmt.Sprintf("%T", m)
+					}
+					o.violate(Violation{Property: "C12", Kind: "direct", What: fmt.Sprintf("%s.%s(%v): the key is not registered in the pinned table, the look-up answered %s (%s) instead of an error", tb.Pkg, tb.Lookup, key, c, got),
+						Case: desc, Expected: "err", Observed: c + " " + got, Key: fmt.Sprintf("crosskey:%s.%s", tb.Pkg, tb.Lookup)})
+					break
+				}
+			}
+		}
+		o.stats["recombined-keys"] += n
+		res["recombined_keys"] = n
+		return res
 	}
 }
